@@ -127,7 +127,7 @@ def imm_cases():
             if iname == 'badstring' and (rank == 3 or rs == 'seed' or inv or strict):
               continue
             out.append(Case('%s-in%dd-%s-%s-%s' % (iname, rank, rs, 'inv' if inv else 'noinv', 'strict' if strict else 'lax'),
-                            dict(input=Arr(rank, dims=(['n', 'd'] if rank == 2 else ['n', 't', 'd'])), init=ispec, random_state=rspec,
+                            dict(input=Arr(rank, dims=(['n', 'd'] if rank == 2 else ['n', 't', 'd']), tt='pos'), init=ispec, random_state=rspec,
                                  return_inverse=Const(VBool(inv)), strict_pd=Const(VBool(strict)), matrix_name=Opaque('matrix_name')),
                             never_returns=(iname == 'badstring')))
   return out
@@ -177,6 +177,9 @@ register(Contract(
         'real-float-dtype': lambda a, r: None if imm_bad(a) else z3.BoolVal(all(m.kind == 'f' for m in imm_mats(a, r))),
         # C17: the returned matrices never share memory with the caller's `init` array or the training data
         'fresh': lambda a, r: None if imm_bad(a) else z3.BoolVal(all(len(m.owner) == 0 for m in imm_mats(a, r))),
+        # C19: the prior / initial matrix does not change when all training points are translated (identity, random and array do
+        # not look at the data; 'covariance' only through np.cov of the distinct points)
+        'translation-invariant': lambda a, r: None if imm_bad(a) else z3.BoolVal(all(m.tt == 'inv' for m in imm_mats(a, r))),
         # C11 / C20: with strict_pd the returned matrix is positive definite
         # (not claimed for init='covariance': positive definiteness of the pseudo-inverse built by _pseudo_inverse_from_eig is a value-level
         #  fact of that helper which is not under a value-level contract)
@@ -203,7 +206,7 @@ def ic_cases():
         if iname == 'badstring' and rs == 'seed':
           continue
         out.append(Case('%s-%s-%s' % (iname, 'classes' if hc else 'regression', rs),
-                        dict(n_components=Int(1), input=Arr(2, dims=['n', 'd']), y=Arr(1, 'i' if hc else 'f', dims=['n']), init=ispec,
+                        dict(n_components=Int(1), input=Arr(2, dims=['n', 'd'], tt='pos'), y=Arr(1, 'i' if hc else 'f', dims=['n']), init=ispec,
                              verbose=Const(VBool(False)), random_state=rspec, has_classes=Const(VBool(hc))),
                         pre=lambda a: a.n_components <= a.input.dim(1),
                         never_returns=(iname == 'badstring' or (iname == 'lda' and not hc))))
@@ -235,6 +238,8 @@ register(Contract(
         'shape-(n_components,d)': lambda a, r: None if ic_bad(a) else z3.And(r.ndim == 2, r.dim(0) == a.n_components, r.dim(1) == a.input.dim(1)),
         'real-float-dtype': lambda a, r: None if ic_bad(a) else z3.BoolVal(r.kind == 'f'),
         'fresh': lambda a, r: None if ic_bad(a) else z3.BoolVal(len(r.owner) == 0),
+        # C19: pca / lda directions, identity, random and user arrays do not change under a translation of the data
+        'translation-invariant': lambda a, r: None if ic_bad(a) else z3.BoolVal(r.tt == 'inv'),
     },
     raises={'ValueError': May()},
     events={'randomness-only-from-random_state': lambda a, ev, r: z3.BoolVal(all(
@@ -242,3 +247,9 @@ register(Contract(
     returns=mat_result(lambda a: [a.n_components, a.input.dim(1)]), modifies=set(), prop=['C03', 'C17', 'C20']))
 C.unit('C20', '_util:_initialize_components')
 C.unit('C03', '_util:_initialize_components')
+
+
+from npvc import ttype as _TT
+for _t in ('_util:_initialize_metric_mahalanobis', '_util:_initialize_components'):
+  REGISTRY[_t].tt_rule = (lambda env, p, res: _TT.set_tt(p, res, _TT.INV))       # proved on the body: clause `translation-invariant`
+REGISTRY['_util:components_from_metric'].tt_rule = (lambda env, p, res: _TT.set_tt(p, res, _TT.tt_of(p, env['metric'])))
